@@ -331,6 +331,16 @@ def spreadBits (upd : SFile → Bool → SFile) : List SFile → List Bool → L
       | [] => f :: spreadBits upd fs []
     else f :: spreadBits upd fs bs
 
+/-- the content of the Names property: external flag 0, then the names filling the property exactly -/
+def sNamesBody : SP (List (List Nat)) := do
+  let ext ← sByte "names external flag"
+  if ext ≠ 0 then sfail "external names are not supported by this reader" else
+  let body ← get
+  set ([] : Bytes)
+  match splitNames (body.length + 1) body [] with
+  | .error e => sfail e
+  | .ok ns => pure ns
+
 def sFileProps : Nat → Nat → List SFile → Nat → Bool → SP (List SFile)
   | 0, _, _, _, _ => sfail "too many file properties"
   | fuel + 1, n, files, numEmpty, seenEmptyStream => do
@@ -351,14 +361,7 @@ def sFileProps : Nat → Nat → List SFile → Nat → Bool → SP (List SFile)
       let bits ← sSized size "Anti" (sBitField numEmpty "Anti")
       sFileProps fuel n (spreadBits (fun f b => { f with anti := b }) files bits) numEmpty seenEmptyStream
     | 0x11 => do
-      let names ← sSized size "Names" (do
-        let ext ← sByte "names external flag"
-        if ext ≠ 0 then sfail "external names are not supported by this reader" else
-        let body ← get
-        set ([] : Bytes)
-        match splitNames (body.length + 1) body [] with
-        | .error e => sfail e
-        | .ok ns => pure ns)
+      let names ← sSized size "Names" sNamesBody
       if names.length ≠ n then sfail s!"{names.length} names for {n} files" else
       sFileProps fuel n (setList files names (fun f v => { f with name := some v })) numEmpty seenEmptyStream
     | 0x12 => do
